@@ -486,6 +486,8 @@ def _interval(ctx) -> None:
     params = core.params(m.func("Interval.__new__"))
     ctx.ob("STATE-COMPLETE", "Interval.__new__/signature", params == ["start", "end", "absolute"], f"{params}", m.rel)
     # swap in __init__ that _getstate undoes
+    from . import C06
+    C06.init_tabulate(ctx)
     init = m.func("Interval.__init__")
     ifs = [n for n in core.walk_fn(init) if isinstance(n, ast.If) and nun(n.test) in ("start > end", "_is_after(start, end)")]
     ok = len(ifs) == 1 and nun(ifs[0]) == (f"if {nun(ifs[0].test)}:\n    self._invert = True\n    if absolute:\n        end, start = (start, end)\n"
